@@ -38,7 +38,44 @@ REFS = {
     "r7": (None, "o", "SET DEFAULT", "SET NULL"),
 }
 REFCOLS = ("x", "y", "z")
-CHECKS = {"e1": "a > 0", "e2": "b < 3", "c1": "b > 1"}
+# grammar keywords of the pinned tree (frozen here so that the name pool does not follow a changed tokens.py)
+KEYWORDS = ['ADD', 'ALTER', 'ARRAY', 'AS', 'AUTOINCREMENT', 'AUTO_INCREMENT', 'AUTO_REFRESH', 'BY', 'CACHE', 'CATALOG', 'CHANGE_TRACKING', 'CHECK',
+            'CLONE', 'CLUSTER', 'CLUSTERED', 'COLLATE', 'COLLECTION', 'COLUMN', 'COMMENT', 'CONSTRAINT', 'CREATE', 'DATABASE', 'DEFAULT',
+            'DEFERRABLE', 'DELETE', 'DOMAIN', 'DROP', 'ENCODE', 'ENCRYPT', 'ENFORCED', 'ENGINE', 'ENUM', 'ESCAPED', 'EXISTS', 'FILE_FORMAT', 'FOR',
+            'FOREIGN', 'FORMAT', 'GENERATED', 'IF', 'IN', 'INCREMENT', 'INDEX', 'INHERITS', 'INITIALLY', 'INTO', 'INVISIBLE', 'ITEMS', 'KEY', 'KEYS',
+            'LIKE', 'LOCATION', 'MAP', 'MASKING', 'MAXVALUE', 'MINVALUE', 'MODIFY', 'NO', 'NOORDER', 'NOT', 'NULL', 'ON', 'OPTIONS', 'OR', 'ORDER',
+            'PARTITION', 'PARTITIONED', 'PATTERN', 'POLICY', 'PRIMARY', 'REFERENCES', 'RENAME', 'REPLACE', 'ROW', 'SALT', 'SCHEMA', 'SEQUENCE',
+            'SERDE', 'SET', 'SKEWED', 'START', 'STORAGE', 'STORED', 'TABLE', 'TABLESPACE', 'TAG', 'TBLPROPERTIES', 'TERMINATED', 'TYPE', 'UNIQUE',
+            'UPDATE', 'USING', 'VISIBLE', 'WITH', 'WITHOUT', 'GO', 'USE', 'INSERT', 'GRANT']
+ABSTRACT_COLS = ("a", "b", "c", "d", "e")
+
+
+def name_map(seed):
+    """abstract column names -> concrete identifiers.  seed 0 keeps a, b, c; other seeds draw keyword-shaped but legal
+    identifiers (a keyword with a suffix / prefix, any case) so that prefix / substring matching of keywords shows."""
+    if seed % 4 == 0:
+        return {c: c for c in ABSTRACT_COLS}
+    rnd = random.Random(f"names{seed}")
+    out, used = {}, set()
+    for c in ABSTRACT_COLS:
+        while True:
+            k = rnd.choice(KEYWORDS)
+            k = k.lower() if rnd.random() < 0.7 else (k if rnd.random() < 0.5 else k.capitalize())
+            n = rnd.choice([k + "_" + c, k + "s" + c, c + "_" + k, k + "ral_" + c, k + c])
+            if n.lower() not in used:
+                used.add(n.lower())
+                out[c] = n
+                break
+    return out
+# check expressions ({a} {b} are replaced by the concrete column names)
+CHECKS = {"e1": "{a} > 0", "e2": "{b} < 3", "c1": "{b} > 1", "e3": "COALESCE({a}, 0) >= 0", "e4": "LENGTH({b}) > 3 AND {a} <> 7",
+          "c2": "GREATEST({b}, 1) < 50", "e5": "{a} BETWEEN 1 AND 5", "e6": "{a} + {b} > 1", "e7": "{a} IN (1, 2, 3)"}
+# pool entries on which the pinned tree is known to deviate: id -> deviation tag (see known_findings.json)
+CHECK_TAGS = {"e4": "check_call_and", "e7": "check_in_table"}
+
+
+def check_text(eid, nm):
+    return CHECKS[eid].format(**nm)
 COMMENTS = {"l1": "'note one'", "l2": "'it, has (punctuation); inside'"}
 
 
@@ -55,7 +92,8 @@ def ref_clause(rid, ncols, rnd=None):
     return " ".join([s] + parts)
 
 
-def opt_text(o, rnd):
+def opt_text(o, rnd, nm=None):
+    nm = nm or {c: c for c in ABSTRACT_COLS}
     g, v = o["g"], o["v"]
     if g == "null":
         return "NULL" if v == "null" else "NOT NULL"
@@ -68,29 +106,41 @@ def opt_text(o, rnd):
     if g == "ref":
         return ref_clause(v, 1, rnd)
     if g == "check":
-        return "CHECK (" + CHECKS[v] + ")"
+        return "CHECK (" + check_text(v, nm) + ")"
     if g == "comment":
         return "COMMENT " + COMMENTS[v]
     raise ValueError(g)
 
 
-def item_text(it, rnd):
+def item_text(it, rnd, nm=None):
+    nm = nm or {c: c for c in ABSTRACT_COLS}
     k = it["k"]
-    cs = ", ".join(it["cs"])
+    cs = ", ".join(nm[c] for c in it["cs"])
     cn = f"CONSTRAINT {it['cn']} " if it["cn"] else ""
     if k in ("pk", "cpk"):
+        form = rnd.randrange(4)
+        if form == 1:
+            return f"{cn}PRIMARY KEY CLUSTERED ({cs})"
+        if form == 2:   # some, not all, key columns carry an explicit sort direction
+            cols = [nm[c] + (" DESC" if i % 2 else "") for i, c in enumerate(it["cs"], 1 if rnd.random() < 0.5 else 0)]
+            return f"{cn}PRIMARY KEY CLUSTERED ({', '.join(cols)})"
+        if form == 3:
+            cols = [nm[c] + (" ASC" if i == len(it["cs"]) - 1 else "") for i, c in enumerate(it["cs"])]
+            return f"{cn}PRIMARY KEY ({', '.join(cols)})"
         return f"{cn}PRIMARY KEY ({cs})"
     if k in ("uniq", "cuniq"):
         return f"{cn}UNIQUE ({cs})"
     if k in ("check", "ccheck"):
-        return f"{cn}CHECK ({CHECKS[it['e']]})"
+        return f"{cn}CHECK ({check_text(it['e'], nm)})"
     if k in ("fk", "cfk"):
         return f"{cn}FOREIGN KEY ({cs}) " + ref_clause(it["r"], len(it["cs"]), rnd)
     raise ValueError(k)
 
 
-def render(hist, seed, table="t1", schema=None, colnames=("a", "b", "c", "d", "e")):
+def render_parts(hist, seed, nm=None):
+    """-> list of body parts (column definitions and table-level items, in order)"""
     rnd = random.Random(f"tf{seed}")
+    nm = nm or {c: c for c in ABSTRACT_COLS}
     parts = []
     ncol = 0
     cur = None
@@ -98,52 +148,80 @@ def render(hist, seed, table="t1", schema=None, colnames=("a", "b", "c", "d", "e
         if a["a"] == "col":
             if cur is not None:
                 parts.append(cur)
-            cur = f"{colnames[ncol]} {TYPES[a['tf']][0]}"
+            cur = f"{nm[ABSTRACT_COLS[ncol]]} {TYPES[a['tf']][0]}"
             ncol += 1
         elif a["a"] == "opt":
-            cur += " " + opt_text(a["o"], rnd)
+            cur += " " + opt_text(a["o"], rnd, nm)
         elif a["a"] == "item":
             if cur is not None:
                 parts.append(cur)
                 cur = None
-            parts.append(item_text(a["it"], rnd))
+            parts.append(item_text(a["it"], rnd, nm))
     if cur is not None:
         parts.append(cur)
+    return parts
+
+
+LAYOUTS = ("oneline", "multiline", "noterm")
+
+
+def lay_out(name, parts, layout):
+    """one CREATE TABLE statement in the given layout (noterm = multi-line, no `;`: the next CREATE ends it)"""
+    if layout == "oneline":
+        return f"CREATE TABLE {name} (" + ", ".join(parts) + ");"
+    body = ",\n".join("    " + p for p in parts)
+    return f"CREATE TABLE {name} (\n{body}\n)" + (";" if layout == "multiline" else "")
+
+
+def render(hist, seed, table="t1", schema=None, nm=None, layout="oneline"):
     name = (schema + "." if schema else "") + table
-    return f"CREATE TABLE {name} (" + ", ".join(parts) + ");"
+    return lay_out(name, render_parts(hist, seed, nm), layout)
+
+
+def _check_norm(st):
+    """a check is reported as text, or (IN lists) as {"in_statement": {"name", "in"}} possibly inside a list"""
+    if isinstance(st, list) and len(st) == 1:
+        st = st[0]
+    if isinstance(st, dict) and "in_statement" in st:
+        i = st["in_statement"]
+        st = f"{i.get('name')} IN ({', '.join(i.get('in') or [])})"
+    return _sq(st) if isinstance(st, str) else st
 
 
 def _sq(s):
     return re.sub(r"\s+", "", s) if isinstance(s, str) else s
 
 
-def expected(obs, open_names=()):
+def expected(obs, open_names=(), nm=None):
+    nm = nm or {c: c for c in ABSTRACT_COLS}
     cols = []
     for c in obs["cols"]:
         _, ty, size = TYPES[c["tf"]]
-        cols.append({"n": c["n"], "ty": ty, "size": size, "nullable": c["nullable"],
+        cols.append({"n": nm[c["n"]], "ty": ty, "size": size, "nullable": c["nullable"],
                      "df": None if c["df"] == "none" else DEFAULTS[c["df"]][1],
                      "uq": None if c["n"] in open_names else c["uq"],
-                     "ck": None if c["ck"] == "none" else _sq(CHECKS[c["ck"]])})
+                     "ck": None if c["ck"] == "none" else _sq(check_text(c["ck"], nm))})
     refs = []
     for r in obs["refs"]:
         rid, k = r["r"]
         sch, tb, od, ou = REFS[rid]
         if k == 0:  # named FOREIGN KEY constraint: whole column lists
-            refs.append({"cs": list(r["cs"]), "sch": sch, "tb": tb, "rc": list(REFCOLS[:len(r["cs"])]), "od": od, "ou": ou})
+            refs.append({"cs": [nm[c] for c in r["cs"]], "sch": sch, "tb": tb, "rc": list(REFCOLS[:len(r["cs"])]), "od": od, "ou": ou})
         else:
-            refs.append({"cs": list(r["cs"]), "sch": sch, "tb": tb, "rc": [REFCOLS[k - 1]], "od": od, "ou": ou})
+            refs.append({"cs": [nm[c] for c in r["cs"]], "sch": sch, "tb": tb, "rc": [REFCOLS[k - 1]], "od": od, "ou": ou})
     return {
         "cols": cols,
-        "pk": list(obs["pk"]),
-        "named": sorted([[n["k"], n["cn"], list(n["cs"])] for n in obs["named"]]),
-        "multi": sorted(list(m) for m in obs["multi"]),
-        "checks": [{"cn": c["cn"] or None, "e": _sq(CHECKS[c["e"]])} for c in obs["checks"]],
+        "pk": [nm[c] for c in obs["pk"]],
+        "named": sorted([[n["k"], n["cn"], [nm[c] for c in n["cs"]]] for n in obs["named"]], key=repr),
+        "multi": sorted([nm[c] for c in m] for m in obs["multi"]),
+        "checks": [{"cn": c["cn"] or None, "e": _sq(check_text(c["e"], nm))} for c in obs["checks"]],
         "refs": sorted(refs, key=repr),
     }
 
 
-def project_table(t, open_names=()):
+def project_table(t, open_names=(), nm=None):
+    if nm is not None:
+        open_names = {nm[c] for c in open_names}
     cols = []
     refs = []
     for c in t.get("columns", []):
@@ -153,7 +231,7 @@ def project_table(t, open_names=()):
         ck = c.get("check")
         cols.append({"n": c.get("name"), "ty": c.get("type"), "size": size, "nullable": c.get("nullable"), "df": c.get("default"),
                      "uq": None if c.get("name") in open_names else c.get("unique"),
-                     "ck": _sq(ck) if isinstance(ck, str) else ck})
+                     "ck": _check_norm(ck)})
         r = c.get("references")
         if r:
             rc = [r["column"]] if "column" in r else list(r.get("columns") or [])
@@ -176,7 +254,7 @@ def project_table(t, open_names=()):
     checks = []
     for c in t.get("checks", []):
         st = c.get("statement") if isinstance(c, dict) else c
-        checks.append({"cn": c.get("constraint_name") if isinstance(c, dict) else None, "e": _sq(st)})
+        checks.append({"cn": c.get("constraint_name") if isinstance(c, dict) else None, "e": _check_norm(st)})
     return {"cols": cols, "pk": list(t.get("primary_key") or []), "named": sorted(named, key=repr), "multi": sorted(multi),
             "checks": checks, "refs": sorted(refs, key=repr)}
 
